@@ -2020,6 +2020,121 @@ impl Gen {
         t
     }
 
+    /// bits of a finite double: random patterns, subnormals, extremes, neighbours of powers of two and of ten, values whose
+    /// shortest decimal form has 15-17 significant digits, long digit strings (stream `random-literals`)
+    fn f64_bits(&mut self) -> u64 {
+        let r = self.rng.below(100);
+        let mut bits: u64 = if r < 20 {
+            self.rng.next() & 0x7fff_ffff_ffff_ffff
+        } else if r < 26 {
+            self.rng.next() & 0x000f_ffff_ffff_ffff // subnormal
+        } else if r < 30 {
+            *self.rng.pick(&[0x7fef_ffff_ffff_ffffu64, 0x0010_0000_0000_0000, 1, 0x7ff0_0000_0000_0000, 0x000f_ffff_ffff_ffff])
+        } else if r < 42 {
+            // 2^k and its neighbours
+            let k = self.rng.below(2046) + 1;
+            let b = k << 52;
+            b.wrapping_add(self.rng.below(5)).wrapping_sub(2)
+        } else if r < 54 {
+            // 10^k and its neighbours
+            let k = self.rng.below(617) as i32 - 308;
+            let v: f64 = format!("1e{}", k).parse().unwrap_or(1.0);
+            v.to_bits().wrapping_add(self.rng.below(5)).wrapping_sub(2)
+        } else if r < 80 {
+            // a decimal with 15-19 significant digits and a small scale: d.ddd… * 10^e
+            let nd = 15 + self.rng.below(5);
+            let mut digits = String::new();
+            digits.push((b'1' + self.rng.below(9) as u8) as char);
+            digits.push('.');
+            for _ in 1..nd {
+                digits.push((b'0' + self.rng.below(10) as u8) as char);
+            }
+            let e = self.rng.below(25) as i32 - 4;
+            let v: f64 = format!("{}e{}", digits, e).parse().unwrap_or(1.0);
+            v.to_bits()
+        } else {
+            // uniform in [0, 10^k)
+            let k = *self.rng.pick(&[1.0f64, 10.0, 1000.0, 1.0e6, 1.0e15, 1.0e17]);
+            let u = (self.rng.next() >> 11) as f64 / (1u64 << 53) as f64;
+            (u * k).to_bits()
+        };
+        if (bits >> 52) & 0x7ff == 0x7ff && bits & 0x000f_ffff_ffff_ffff != 0 {
+            bits &= 0xfff0_0000_0000_0000; // no NaN here (own corpus lines): infinity instead
+        }
+        bits & 0x7fff_ffff_ffff_ffff
+    }
+
+    fn f32_bits(&mut self) -> u32 {
+        let r = self.rng.below(100);
+        let mut bits: u32 = if r < 30 {
+            (self.rng.next() as u32) & 0x7fff_ffff
+        } else if r < 38 {
+            (self.rng.next() as u32) & 0x007f_ffff
+        } else if r < 44 {
+            *self.rng.pick(&[0x7f7f_ffffu32, 0x0080_0000, 1, 0x7f80_0000, 0x007f_ffff])
+        } else if r < 58 {
+            let k = (self.rng.below(254) + 1) as u32;
+            (k << 23).wrapping_add(self.rng.below(5) as u32).wrapping_sub(2)
+        } else if r < 72 {
+            let k = self.rng.below(77) as i32 - 38;
+            let v: f32 = format!("1e{}", k).parse().unwrap_or(1.0);
+            v.to_bits().wrapping_add(self.rng.below(5) as u32).wrapping_sub(2)
+        } else if r < 88 {
+            let nd = 6 + self.rng.below(5);
+            let mut digits = String::new();
+            digits.push((b'1' + self.rng.below(9) as u8) as char);
+            digits.push('.');
+            for _ in 1..nd {
+                digits.push((b'0' + self.rng.below(10) as u8) as char);
+            }
+            let e = self.rng.below(20) as i32 - 6;
+            let v: f32 = format!("{}e{}", digits, e).parse().unwrap_or(1.0);
+            v.to_bits()
+        } else {
+            let k = *self.rng.pick(&[1.0f32, 10.0, 1000.0, 1.0e6]);
+            let u = (self.rng.next() >> 40) as f32 / (1u64 << 24) as f32;
+            (u * k).to_bits()
+        };
+        if (bits >> 23) & 0xff == 0xff && bits & 0x007f_ffff != 0 {
+            bits &= 0xff80_0000;
+        }
+        bits & 0x7fff_ffff
+    }
+
+    /// a literal of any kind drawn from the whole value range (sign bit set in about one case of eight: negative
+    /// literals are a known defect class)
+    fn wide_literal(&mut self) -> SExp {
+        let neg = self.rng.chance(1, 8);
+        let int_mag = |g: &mut Gen, max_bits: u64| -> u64 {
+            let nb = 1 + g.rng.below(max_bits);
+            let v = g.rng.next() >> (64 - nb);
+            match g.rng.below(6) {
+                0 => (1u64 << (nb - 1)).wrapping_sub(1),
+                1 => 1u64 << (nb - 1),
+                2 => {
+                    let p = 10u64.checked_pow(g.rng.below(20) as u32).unwrap_or(1);
+                    let w = p.wrapping_add(g.rng.below(3)).wrapping_sub(1);
+                    if max_bits < 64 { w & ((1u64 << max_bits) - 1) } else { w }
+                }
+                _ => v,
+            }
+        };
+        let s = match self.rng.below(9) {
+            0 => format!("(lit i {})", int_mag(self, 64)),
+            1 => format!("(lit u {})", int_mag(self, 32) & 0xffff_ffff),
+            2 => format!("(lit ul {})", int_mag(self, 64)),
+            3 => {
+                let m = int_mag(self, 63) & 0x7fff_ffff_ffff_ffff;
+                format!("(lit l {}{})", if neg && m != 0 { "-" } else { "" }, m)
+            }
+            4 | 5 => format!("(lit f 0x{:016x})", self.f64_bits() | if neg { 1 << 63 } else { 0 }),
+            6 => format!("(lit f64 0x{:016x})", self.f64_bits() | if neg { 1 << 63 } else { 0 }),
+            7 => format!("(lit f32 0x{:08x})", self.f32_bits() | if neg { 1 << 31 } else { 0 }),
+            _ => format!("(lit h 0x{:08x})", self.f32_bits() | if neg { 1 << 31 } else { 0 }),
+        };
+        parse_sexp(&s).unwrap()
+    }
+
     /// a type id with template arguments, modifiers and an abstract declarator (stream `random-types`)
     fn rich_type(&mut self, d: usize) -> SExp {
         let n = *self.rng.pick(&["float", "uint", "T", "S", "N::S", "vector"]);
@@ -2247,6 +2362,20 @@ pub fn run(args: &Args, out: &mut Out) {
         run_request(&line, out, &mut st);
     }
     out.stat(&st.json("random-types"));
+    // stream 3c: literals of every kind over the whole value range ("every literal reads back with the same value and type")
+    let mut st = Stats::default();
+    for i in 0..(if thorough { 60000 } else { 6000 }) {
+        let l = g.wide_literal();
+        // alone, and as an operand (adjacency with operators and member access)
+        let t = match i % 6 {
+            0 => bin("Subtract", SExp::list("id", vec![SExp::atom("a")]), l),
+            1 => un("Minus", l),
+            _ => l,
+        };
+        let line = format!("C09.rt\tret\t{}", t.show());
+        run_request(&line, out, &mut st);
+    }
+    out.stat(&st.json("random-literals"));
     // stream 4: parser-produced trees of whole modules: statements, declarators, types, initialisers, attributes
     let mut sg = SrcGen {
         rng: g.rng.fork(),
